@@ -10,7 +10,7 @@ package ircomp
 // an index that does not fit, for value registers and for cell registers alike:
 // both pools stay at 255 entries at most, and running out is a compilation
 // panic (which CompileQueue turns into a compile error).
-//@ macro raOK(a) = a != nil && len(a.regs) <= 255 && len(a.cells) <= 255
+//@ macro raOK(a) = a != nil && len(a.regs) <= 255 && len(a.cells) <= 255 && forall(q, 0, len(a.allocations), a.allocations[q].done ==> (a.allocations[q].r.IsCell() ==> int(a.allocations[q].r.Idx()) < len(a.cells)) && (!a.allocations[q].r.IsCell() ==> int(a.allocations[q].r.Idx()) < len(a.regs)))
 
 //@ func allocReg
 //@   prop C04
@@ -32,6 +32,8 @@ package ircomp
 //@   modifies everything()
 //@   exits any
 //@   ensures raOK(a)
+//@   ensures len(a.regs) >= old(len(a.regs)) && len(a.cells) >= old(len(a.cells))
+//@   ensures (result0.IsCell() ==> int(result0.Idx()) < len(a.cells)) && (!result0.IsCell() ==> int(result0.Idx()) < len(a.regs))   // every register an instruction names exists in the frame sized from the final pools (RegCount / CellCount)
 
 // takeRegister selects one of the two pools through an interior pointer chosen
 // at a join, which is outside the verifier's subset; callers see the weakest
